@@ -251,6 +251,10 @@ impl<F: CircuitField> VarLenSha256Gadget<F> {
         layouter: &mut impl Layouter<F>,
         inputs: &AssignedVector<F, AssignedByte<F>, M, 64>,
     ) -> Result<[AssignedPlain<F, 32>; 8], Error> {
+        // The payload is aligned to the end of the buffer, which is processed in blocks of
+        // 64 bytes from its beginning: the buffer must consist of whole blocks.
+        assert!(M >= 64 && M % 64 == 0, "the maximum length must be a positive multiple of 64");
+
         let ng = self.ng();
 
         // Compute the block where the effective data starts.
